@@ -336,11 +336,14 @@ def main(pid, tier):
     cat_states = 0
     ngroups = 0
     for tol in tols:
+        fl, ot = QUICK_ALPHA[tol]
         if thorough:
-            fl = ALL_FLOATS - ({13, 14} if tol == -1 else set())     # (negative values would round to -0.0 at tol=-1)
-            ot = ALL_OTHERS
-        else:
-            fl, ot = QUICK_ALPHA[tol]
+            # the tolerance's own alphabet plus a rotating sample of the other leaves (negative values would round
+            # to -0.0 at tol=-1 and are left out there)
+            more = sorted(ALL_FLOATS - fl - ({13, 14} if tol == -1 else set()))
+            rng.shuffle(more)
+            fl = set(fl) | set(more[:3])
+            ot = set(ot) | set(rng.sample(sorted(ALL_OTHERS - ot), 2))
         groups, st = tlc_catalogue(dict(FloatIds=fl, OtherIds=ot, ShapeIds=ALL_SHAPES, TolIds={tol_id(tol)}, Deviations=set()), work)
         cat_states += st
         ngroups += len(groups)
@@ -361,7 +364,7 @@ def main(pid, tier):
                             if mode == 'keygen':
                                 algs = [None]
                             elif thorough:
-                                algs = ALGS
+                                algs = ALGS if form == 'pos' else [ALGS[(n + g['sh'] + len(jobs)) % len(ALGS)]]
                             else:
                                 algs = [ALGS[(n + g['sh'] + len(jobs)) % len(ALGS)]]
                             for alg in algs:
